@@ -11,6 +11,7 @@ def authRejects : List String := [
   "!isECDSA",
   "err != nil",
   "!ecdsa.VerifyASN1(pk, sha256Digest(signedBytes), sig)",
+  "NOT-REJECTING: !exists",
   "!exists"
 ]
 def authSignedBytes : String := "signedBytes, err := asn1.Marshal(h)"
